@@ -33,9 +33,10 @@ class C11(EngineProp):
     # -- the byte-stream transport: the link is cut between any two bytes, by EOF or by a read error -------------------------
     def cases(self, rng, tier):
         out = super().cases(rng, tier)
-        for _ in range(60 if tier == 'quick' else 3000):
+        for _ in range(90 if tier == 'quick' else 3000):
             out.append({'mode': 'tcp', 'role': rng.choice(['client', 'server']), 'profile': 'tcp-cut', 'cut': rng.choice(['eof', 'reset', 'timeout']),
-                        'partial': rng.randint(0, 40), 'rr': rng.randint(0, 2), 'streams': rng.randint(0, 2), 'incoming': rng.randint(0, 2)})
+                        'partial': rng.randint(0, 40), 'rr': rng.randint(0, 2), 'streams': rng.randint(0, 2), 'incoming': rng.randint(0, 2),
+                        'producers': rng.choice([0, 1, 1, 2]), 'producer_kind': rng.choice(['gen', 'agen']), 'producer_when': rng.choice(['early', 'same-read'])})
         return out
 
     def run_impl(self, case):
@@ -55,7 +56,7 @@ class C11(EngineProp):
         from rsocket.payload import Payload
         from harness import engine
         from harness.link import Writer
-        log = {'on_close': 0, 'handler_futures': [], 'wire': bytearray()}
+        log = {'on_close': 0, 'handler_futures': [], 'wire': bytearray(), 'pulls': [], 'pulls_at_close': None}
 
         class L:
             stream = [log['wire'], bytearray()]
@@ -68,8 +69,13 @@ class C11(EngineProp):
                 log['handler_futures'].append(f)
                 return f
 
+            async def request_stream(self, payload):
+                from harness import sources
+                return sources.make_source(case.get('producer_kind', 'gen'), 40, False, False, pulls=log['pulls'])
+
             async def on_close(self, rsocket, exception=None):
                 log['on_close'] += 1
+                log['pulls_at_close'] = len(log['pulls'])
         if case['role'] == 'client':
             ep = RSocketClient(single_transport_provider(t), handler_factory=H, keep_alive_period=timedelta(seconds=100000), max_lifetime_period=timedelta(seconds=1000000))
             await ep.connect()
@@ -101,11 +107,18 @@ class C11(EngineProp):
         for i in range(case['incoming']):
             reader.feed_data(feed({'ty': 'REQUEST_RESPONSE', 'sid': peer_first + 2 * i, 'data': [9]}))
         await loop.settle()
+        for i in range(case.get('producers', 0)):
+            # the peer asks for a stream served by one of the library's own sources; 'same-read': the request is the last thing the peer
+            # sends, the end of the connection is already in the reader when the receiver handles it
+            reader.feed_data(feed({'ty': 'REQUEST_STREAM', 'sid': peer_first + 40 + 2 * i, 'n': 30, 'data': [8]}))
+            if case.get('producer_when') != 'same-read':
+                await loop.settle()
         # the cut: first `partial` bytes of one more frame, then the end
         tail = feed({'ty': 'REQUEST_FNF', 'sid': peer_first + 100, 'data': list(range(1, 60))})
         if case['partial']:
             reader.feed_data(tail[:case['partial']])
-            await loop.settle()
+            if not (case.get('producers') and case.get('producer_when') == 'same-read'):
+                await loop.settle()
         if case['cut'] == 'eof':
             reader.feed_eof()
         elif case['cut'] == 'reset':
@@ -129,6 +142,10 @@ class C11(EngineProp):
             await ep.close()
         except Exception:
             pass
+        await loop.settle()
+        res['pulled_after_close'] = (len(log['pulls']) - log['pulls_at_close']) if log['pulls_at_close'] is not None else 0
+        res['source_tasks_alive'] = sorted({getattr(tk.get_coro(), '__qualname__', '?') for tk in asyncio.all_tasks()
+                                            if tk is not asyncio.current_task() and not tk.done() and 'Stream' in getattr(tk.get_coro(), '__qualname__', '')})
         return res
 
     def model_lines(self, case, obs):
@@ -177,6 +194,10 @@ class C11(EngineProp):
             fails.append({'signature': 'sends-after-close', 'what': 'TransportTCP, %s: %d bytes written after the connection ended' % (how, obs['written_after_end'])})
         if obs['table']:
             fails.append({'signature': 'streams-left-registered', 'what': 'TransportTCP, %s: streams %s still registered' % (how, obs['table'])})
+        if obs.get('pulled_after_close'):
+            fails.append({'signature': 'publisher-produces-after-connection-loss', 'what': 'TransportTCP, %s: the application\'s generator behind a library stream source was advanced %d more times after the close notification' % (how, obs['pulled_after_close'])})
+        if obs.get('source_tasks_alive'):
+            fails.append({'signature': 'publisher-task-survives-connection-loss', 'what': 'TransportTCP, %s: tasks of a library stream source still running after connection loss and close(): %s' % (how, obs['source_tasks_alive'])})
         return fails
 
     def oracle(self, case, obs):
